@@ -141,6 +141,9 @@ func c17EqResolved(a, b *resolved.Schema) bool {
 // thorough: two), the others take their default.
 var c17Active map[int]bool
 
+// c17SingleDim: vary one dimension per path only (byte-level harness, quick tier).
+var c17SingleDim bool
+
 func c17Pick(dim int, label string, n int) int {
 	if c17Active[dim] {
 		return vrt.Choice(label, n)
@@ -253,7 +256,9 @@ func c17Decls(label string) (ast.Entities, ast.Enums, ast.Actions, ast.CommonTyp
 func c17Schema() *ast.Schema {
 	const dims = 12
 	c17Active = map[int]bool{vrt.Choice("vary-dimension", dims): true}
-	c17Active[vrt.Choice("vary-dimension-2", dims)] = true
+	if !c17SingleDim {
+		c17Active[vrt.Choice("vary-dimension-2", dims)] = true
+	}
 	vrt.Bound("dimensions-varied-together", len(c17Active))
 	s := &ast.Schema{}
 	if c17Pick(11, "namespaced", 2) == 1 {
@@ -334,4 +339,31 @@ func VerifC17_StructRoundTrip() {
 	vrt.Assert("C17.commute.parses", perr == nil)
 	got2, r2 := resolved.Resolve(viaText)
 	vrt.Assert("C17.commute.same-resolved-schema", r2 == nil && c17EqResolved(want, got2))
+}
+
+// Byte level: Schema.MarshalJSON -> bytes -> Schema.UnmarshalJSON through the
+// executor's model of encoding/json (struct tags and omitempty of jsonNamespace /
+// jsonEntity / jsonAction / jsonType / jsonAttr, the RawMessage split per
+// namespace, the "" key for bare declarations): the copy resolves to the same
+// schema and a second encoding is byte-identical.
+func VerifC17_JSONBytes() {
+	c17SingleDim = !vrt.Thorough()
+	s := c17Schema()
+	c17SingleDim = false
+	want, err := resolved.Resolve(s)
+	if err != nil {
+		return
+	}
+	b1, merr := (*Schema)(s).MarshalJSON()
+	vrt.Cover("C17.bytes.checked")
+	vrt.Assert("C17.bytes.encodes", merr == nil)
+	var back Schema
+	uerr := back.UnmarshalJSON(b1)
+	vrt.Assert("C17.bytes.decodes", uerr == nil)
+	got, rerr := resolved.Resolve((*ast.Schema)(&back))
+	vrt.Assert("C17.bytes.resolves", rerr == nil)
+	vrt.Assert("C17.bytes.same-resolved-schema", c17EqResolved(want, got))
+	b2, merr2 := back.MarshalJSON()
+	vrt.Assert("C17.bytes.encodes-again", merr2 == nil)
+	vrt.Assert("C17.bytes.stable", vrt.EqBytes(b1, b2))
 }
